@@ -520,7 +520,9 @@ func (obj *Package) Define(creator func(args List) Object, doc *FuncDoc, aux ...
 func (obj *Package) Export(name string) {
 	name = strings.ToLower(name)
 	obj.mu.Lock()
-	obj.Exports = append(obj.Exports, name)
+	if !slices.Contains(obj.Exports, name) {
+		obj.Exports = append(obj.Exports, name)
+	}
 	if obj.funcs != nil {
 		if fi := obj.funcs[name]; fi != nil {
 			fi.Export = true
@@ -564,7 +566,9 @@ func (obj *Package) Export(name string) {
 func (obj *Package) Unexport(name string) {
 	name = strings.ToLower(name)
 	obj.mu.Lock()
-	// TBD remove from Exports list
+	if i := slices.Index(obj.Exports, name); 0 <= i {
+		obj.Exports = slices.Delete(obj.Exports, i, i+1)
+	}
 	if obj.funcs != nil {
 		// Only a function of this package, not one it inherits.
 		if fi := obj.funcs[name]; fi != nil && fi.Pkg == obj {
